@@ -112,14 +112,26 @@ func runC10(c *sim.Ctx, t *testing.T, concurrent bool) {
 		src      string
 		compiled interface{}
 		attacks  []int
+		action   core.Action
 	}
 	var progs []prog
+	// half of the runs go through the compiled action of a specification (one
+	// core.Action shared by all executions, as the machines of a crew share it), the
+	// others call the interpreter directly
+	viaAction := c.Bool("viaaction")
 	comp := func(src string, attacks []int) {
 		x, err := interp.Compile(ctx, src)
 		if err != nil {
 			c.Infra = "script does not compile: " + err.Error()
 		}
-		progs = append(progs, prog{src, x, attacks})
+		var act core.Action
+		if viaAction {
+			as := &core.ActionSource{Interpreter: "ecmascript", Source: src}
+			if act, err = as.Compile(ctx, core.InterpretersMap{"ecmascript": interp}); err != nil {
+				c.Infra = "action source does not compile: " + err.Error()
+			}
+		}
+		progs = append(progs, prog{src, x, attacks, act})
 	}
 	comp(c10Probe, nil)
 	np := 1 + c.Intn(3, "npolluters")
@@ -155,6 +167,7 @@ func runC10(c *sim.Ctx, t *testing.T, concurrent bool) {
 	type result struct {
 		bsBefore, bsAfter, propsBefore, propsAfter string
 		got, emitted, err                          string
+		perm, wantPerm                             string
 	}
 	results := make([]result, nexec)
 	propsCanon := func(p core.StepProps) string {
@@ -185,10 +198,42 @@ func runC10(c *sim.Ctx, t *testing.T, concurrent bool) {
 		if useCompiled {
 			compiled = pg.compiled
 		}
-		exe, err := interp.Exec(ctx, bs, props, pg.src, compiled)
+		var exe *core.Execution
+		var err error
+		if viaAction {
+			// bindings every machine keeps whatever its actions return; they differ per execution
+			bs["owner!"] = fmt.Sprintf("o%d", i)
+			if i%2 == 0 {
+				bs[fmt.Sprintf("token%d!", i)] = float64(i)
+			}
+			r.bsBefore = typedCanon(bs)
+			exe, err = pg.action.Exec(ctx, bs, props)
+		} else {
+			exe, err = interp.Exec(ctx, bs, props, pg.src, compiled)
+		}
 		r.bsAfter, r.propsAfter = typedCanon(bs), propsCanon(props)
 		if err != nil {
 			r.err = err.Error()
+			return
+		}
+		if viaAction && exe != nil && exe.Bs != nil {
+			// exactly this execution's permanent bindings come back, then compare the rest
+			want := map[string]interface{}{"owner!": fmt.Sprintf("o%d", i)}
+			if i%2 == 0 {
+				want[fmt.Sprintf("token%d!", i)] = float64(i)
+			}
+			gotPerm := map[string]interface{}{}
+			rest := map[string]interface{}{}
+			for k, v := range exe.Bs {
+				if strings.HasSuffix(k, "!") {
+					gotPerm[k] = v
+				} else {
+					rest[k] = v
+				}
+			}
+			r.perm, r.wantPerm = ref.Canon(gotPerm), ref.Canon(want)
+			r.got = ref.Canon(rest)
+			r.emitted = canonList(exe.Emitted)
 			return
 		}
 		r.got = ref.Canon(map[string]interface{}(exe.Bs))
@@ -241,6 +286,9 @@ func runC10(c *sim.Ctx, t *testing.T, concurrent bool) {
 			}
 			c.Violate(sig, "execution %d (%s) changed the caller's step properties: %s -> %s", i, what, r.propsBefore, r.propsAfter)
 		}
+		if r.perm != r.wantPerm {
+			c.Violate("isolation:permanent-bindings", "execution %d (%s, plan %v, concurrent=%v) through the shared compiled action came back with permanent bindings %s, its own are %s", i, what, plan, concurrent, r.perm, r.wantPerm)
+		}
 		if nanBindings {
 			// the execution may legitimately fail (its bindings cannot be copied); only the
 			// caller's side is asserted
@@ -268,7 +316,7 @@ func runC10(c *sim.Ctx, t *testing.T, concurrent bool) {
 		}
 	}
 	c.MixHash(shape)
-	c.Path = shape + fmt.Sprint(concurrent, useCompiled, emptyProps, nanBindings)
+	c.Path = shape + fmt.Sprint(concurrent, useCompiled, emptyProps, nanBindings, viaAction)
 	for _, pg := range progs[1:] {
 		c.Path += fmt.Sprint(pg.attacks)
 	}
